@@ -3949,6 +3949,14 @@ func convertConstantValueTo(n *node, t reflect.Type) {
 
 	var v reflect.Value
 
+	if c.Kind() == constant.Complex {
+		if typ := n.typ.TypeOf(); isNumber(typ) && !isComplex(typ) {
+			// A complex constant converted to an integer or float type has no
+			// imaginary part, as verified by the type check.
+			c = constant.Real(c)
+		}
+	}
+
 	switch c.Kind() {
 	case constant.Bool:
 		v = reflect.ValueOf(constant.BoolVal(c))
